@@ -5,7 +5,9 @@ package knx
 import (
 	"errors"
 	"net"
+	"time"
 
+	"github.com/vapourismo/knx-go/knx/cemi"
 	"github.com/vapourismo/knx-go/knx/knxnet"
 )
 
@@ -53,3 +55,38 @@ func (a vAddr) Network() string { return a.network }
 func (a vAddr) String() string  { return "192.0.2.1:3671" }
 
 func (s *vSock) LocalAddr() net.Addr { return vAddr{s.network} }
+
+// Shared by the step harnesses: a Tunnel constructed directly in a chosen state.
+func vTunnel(sock *vSock, tcp bool) *Tunnel {
+	return &Tunnel{
+		sock:    sock,
+		config:  TunnelConfig{ResendInterval: 2 * time.Second, HeartbeatInterval: 100 * time.Second, ResponseTimeout: 5 * time.Second, UseTCP: tcp},
+		ack:     make(chan *knxnet.TunnelRes),
+		inbound: make(chan cemi.Message),
+		done:    make(chan struct{}),
+	}
+}
+
+var c04Msgs = [4]cemi.Message{&cemi.LDataInd{}, &cemi.LDataInd{}, &cemi.LDataInd{}, &cemi.LDataInd{}}
+
+// c09Gateway answers connect requests with the given channel, heartbeats with OK and (optionally)
+// tunnelling requests with an acknowledgement.
+func c09Gateway(sock *vSock, newCh uint8, ackTunnel bool) {
+	frames := make(chan knxnet.ServicePackable, 64)
+	sock.onSend = func(p knxnet.ServicePackable) { frames <- p }
+	go func() {
+		verifDaemon()
+		for f := range frames {
+			switch r := f.(type) {
+			case *knxnet.ConnStateReq:
+				sock.in <- &knxnet.ConnStateRes{Channel: r.Channel, Status: 0}
+			case *knxnet.ConnReq:
+				sock.in <- &knxnet.ConnRes{Channel: newCh, Status: 0}
+			case *knxnet.TunnelReq:
+				if ackTunnel {
+					sock.in <- &knxnet.TunnelRes{Channel: r.Channel, SeqNumber: r.SeqNumber, Status: 0}
+				}
+			}
+		}
+	}()
+}
